@@ -329,3 +329,13 @@ fn shrink_array_in_fresh_processes(doc: &Json, key: &str, scratch: &std::path::P
     let _ = std::fs::remove_file(&tmp);
     Some(doc.clone().set(key, Json::Arr(cur)))
 }
+
+/// Names of the listed reach / fault probes that never fired in this run (reported in the
+/// evidence and on stdout; a probe stuck at zero means the workload or fault mix must change).
+pub fn probes_at_zero(stats: &Stats, required: &[&str]) -> Json {
+    let zero: Vec<Json> = required.iter().filter(|k| stats.get(k) == 0).map(|k| Json::s(k)).collect();
+    if !zero.is_empty() {
+        println!("note: reach probes at zero in this run: {}", zero.iter().filter_map(|j| j.str()).collect::<Vec<_>>().join(", "));
+    }
+    Json::Arr(zero)
+}
